@@ -157,6 +157,12 @@ def _run(tier, seed, t0, REPO):
                 check_single(it.rule, it.args, prev_ths + [prev_ths[0]], origin + ' (premise duplicated)')
                 other = Thm(rng.choice(props), *prev_ths[0].hyps)
                 check_single(it.rule, it.args, [other] + prev_ths[1:], origin + ' (premise replaced)')
+                # one premise under an additional hypothesis: the evaluation must report it like the expansion
+                j_ = rng.randrange(len(prev_ths))
+                extra_h = rng.choice(props)
+                with_h = list(prev_ths)
+                with_h[j_] = Thm(prev_ths[j_].prop, *(list(prev_ths[j_].hyps) + [extra_h]))
+                check_single(it.rule, it.args, with_h, origin + ' (premise %d under an extra hypothesis)' % j_)
             # arguments: another statement of the same proof / another theorem name
             a = it.args
             for _ in range(2):
